@@ -1,0 +1,57 @@
+//go:build verif
+
+// Contracts for package escape (machine-checked by /verif/bin/stickvc; comment-only file).
+package escape
+
+// rawrune: the bytes appended for an unescaped rune c starting at offset p are its UTF-8
+// encoding — one byte equal to c for ASCII, otherwise two to four bytes that are all >= 0x80.
+//@ pred rawrune(out ref, p int, c int) = (c < 128 ==> buflen(out) == p + 1 && bufbyte(out, p) == c) &&
+//@+   (c >= 128 ==> buflen(out) >= p + 2 && buflen(out) <= p + 4 && (forall k in [0, 4) :: p + k < buflen(out) ==> bufbyte(out, p + k) >= 128))
+
+//@ func escape.HTML
+//@   ensures res: sameview(result, bufstr(out))
+//@   loop 1 invariant alpha: forall k :: 0 <= k && k < buflen(out) ==> !html_bad(bufbyte(out, k))
+//@   loop 1 invariant amp: forall k :: 0 <= k && k < buflen(out) && bufbyte(out, k) == 38 ==> k + 3 < buflen(out)
+//@   loop 1 invariant len: buflen(out) >= 0
+//@   loop 1 step entity: html_special(c) ==> buflen(out) == prev(buflen(out)) + esclen_html(c) &&
+//@+      (forall k in [0, 6) :: k < esclen_html(c) ==> bufbyte(out, prev(buflen(out)) + k) == escbyte_html(c, k))
+//@   loop 1 step raw: !html_special(c) ==> rawrune(out, prev(buflen(out)), c)
+//@   loop 1 step frame: forall j :: 0 <= j && j < prev(buflen(out)) ==> bufbyte(out, j) == prev(bufbyte(out, j))
+
+//@ func escape.HTMLAttribute
+//@   ensures res: sameview(result, bufstr(out))
+//@   loop 1 invariant alpha: forall k :: 0 <= k && k < buflen(out) ==> attr_alpha(bufbyte(out, k)) || bufbyte(out, k) == 120
+//@   loop 1 invariant len: buflen(out) >= 0
+//@   loop 1 step safe: attr_safe(c) ==> buflen(out) == prev(buflen(out)) + 1 && bufbyte(out, prev(buflen(out))) == c
+//@   loop 1 step named: attr_named(c) ==> buflen(out) == prev(buflen(out)) + esclen_html(c) &&
+//@+      (forall k in [0, 6) :: k < esclen_html(c) ==> bufbyte(out, prev(buflen(out)) + k) == escbyte_html(c, k))
+//@   loop 1 step num: !attr_safe(c) && !attr_named(c) && !attr_ctrl(c) ==> buflen(out) == prev(buflen(out)) + esclen_attrnum(c) &&
+//@+      (forall k in [0, 10) :: k < esclen_attrnum(c) ==> bufbyte(out, prev(buflen(out)) + k) == escbyte_attrnum(c, k))
+//@   loop 1 step frame: forall j :: 0 <= j && j < prev(buflen(out)) ==> bufbyte(out, j) == prev(bufbyte(out, j))
+
+//@ func escape.JS
+//@   ensures res: sameview(result, bufstr(out))
+//@   loop 1 invariant alpha: forall k :: 0 <= k && k < buflen(out) ==> js_alpha(bufbyte(out, k))
+//@   loop 1 invariant len: buflen(out) >= 0
+//@   loop 1 step len: buflen(out) == prev(buflen(out)) + esclen_js(c)
+//@   loop 1 step bytes: forall k in [0, 12) :: k < esclen_js(c) ==> bufbyte(out, prev(buflen(out)) + k) == escbyte_js(c, k)
+//@   loop 1 step frame: forall j :: 0 <= j && j < prev(buflen(out)) ==> bufbyte(out, j) == prev(bufbyte(out, j))
+
+//@ func escape.CSS
+//@   ensures res: sameview(result, bufstr(out))
+//@   loop 1 invariant alpha: forall k :: 0 <= k && k < buflen(out) ==> css_alpha(bufbyte(out, k))
+//@   loop 1 invariant len: buflen(out) >= 0
+//@   loop 1 step len: buflen(out) == prev(buflen(out)) + esclen_css(c)
+//@   loop 1 step bytes: forall k in [0, 7) :: k < esclen_css(c) ==> bufbyte(out, prev(buflen(out)) + k) == escbyte_css(c, k)
+//@   loop 1 step frame: forall j :: 0 <= j && j < prev(buflen(out)) ==> bufbyte(out, j) == prev(bufbyte(out, j))
+
+//@ func escape.URLQueryParam
+//@   ensures res: sameview(result, bufstr(out))
+//@   loop 1 invariant alpha: forall k :: 0 <= k && k < buflen(out) ==> url_alpha(bufbyte(out, k))
+//@   loop 1 invariant len: buflen(out) >= 0
+//@   loop 1 invariant idx: 0 <= i && i <= len(in)
+//@   loop 1 decreases len(in) - i
+//@   loop 1 step adv: i == prev(i) + 1
+//@   loop 1 step len: buflen(out) == prev(buflen(out)) + esclen_url(in[prev(i)])
+//@   loop 1 step bytes: forall k in [0, 3) :: k < esclen_url(in[prev(i)]) ==> bufbyte(out, prev(buflen(out)) + k) == escbyte_url(in[prev(i)], k)
+//@   loop 1 step frame: forall j :: 0 <= j && j < prev(buflen(out)) ==> bufbyte(out, j) == prev(bufbyte(out, j))
